@@ -40,12 +40,13 @@ def run_lookup_job(prog, job):
     aref = Ref(acell, ())
     res = new_result(job)
     # ---- address model: the node buffer is one allocation at `base`, element i at base + i*size; any other object
-    # (a node of another arena) occupies `size` bytes at `faddr`, disjoint from the buffer
+    # (a node of another arena) occupies `size` bytes at `faddr`, disjoint from the N initialised elements (a full Vec: capacity == len, so the
+    # foreign object may start exactly one-past-the-end)
     base = z3.BitVec('vecbase', 64); faddr = z3.BitVec('foreign_addr', 64)
     eng.node_size = size
     lim = BV64(1 << 62)
     eng.solver.add(z3.UGE(base, 8), z3.ULT(base, lim), z3.ULT(faddr, lim), z3.UGE(faddr, 8))
-    eng.solver.add(z3.Or(z3.ULE(faddr + size, base), z3.UGE(faddr, base + size * (N + 1))))
+    eng.solver.add(z3.Or(z3.ULE(faddr + size, base), z3.UGE(faddr, base + size * N)))
     fcell = st.new_cell(Agg('Node', [En('Option', S(0, 'isize'), {0: ()})] * 5 + [Agg('NodeStamp', (S(0, 'i16'),)), En('NodeData', S(0, 'isize'), {0: (Opq(BV8(0)),)})]))
 
     def addr_of(st_, ref):
@@ -194,16 +195,17 @@ def run_lookup_job(prog, job):
 
 
 def confirm(prop, v):
-    """native: the lookup paths of every slot, positions beyond the end, a foreign node"""
+    """native: the lookup paths of every slot, positions beyond the end, a foreign node - also one that lies directly behind
+    the storage of a full arena (the replayer runs on a bump allocator, so the layout can be arranged)"""
     import replay, re
     pre = v['pre']; N = len(pre['slots'])
     detail = {}; status = 'not_reproduced'
     for profile in ('dev', 'release'):
-        lines = replay.construct_script(pre)
+        lines = ['arena_adjacent %d' % N] + replay.construct_script(pre)
         n0 = len(lines)
         for i in range(N): lines.append('lookup s%d' % (i + 1))
         for p in range(1, N + 3): lines.append('get_node_id_at %d' % p)
-        lines += ['is_empty', 'arena_new', 'new f 1', 'arena_select 0', 'foreign_get_node_id 1 f']
+        lines += ['is_empty', 'foreign_get_node_id 2 foreign', 'arena_new', 'new f 1', 'arena_select 1', 'foreign_get_node_id 3 f']
         res = replay.run_script(lines, profile)
         d = res.get(n0 - 1)
         try: got = replay.parse_dump(d[1]) if d and d[0] == 'OK' else None
@@ -222,9 +224,10 @@ def confirm(prop, v):
             if r is None or r[0] != 'OK' or r[1].strip() != exp: bad.append('get_node_id_at %d: %s (expected %s)' % (p, r, exp))
         r = res.get(n0 + N + N + 2)
         if r is None or r[1].strip() != ('true' if N == 0 else 'false'): bad.append('is_empty: %s' % (r,))
-        r = res.get(len(lines) - 1)
-        if r is None or r[0] != 'OK' or r[1].strip() != 'None': bad.append('foreign get_node_id: %s' % (r,))
-        detail[profile] = {'pre_ok': ok, 'bad': bad[:8]}
+        for k in (n0 + 2 * N + 3, len(lines) - 1):
+            r = res.get(k)
+            if r is None or r[0] != 'OK' or r[1].strip() != 'None': bad.append('%s: %s (layout: %s)' % (lines[k], r, res.get(0)))
+        detail[profile] = {'pre_ok': ok, 'bad': bad[:8], 'layout': res.get(0)}
         detail.setdefault('script', lines)
         if not ok:
             if status == 'not_reproduced': status = 'unreachable'
